@@ -65,7 +65,7 @@ func ProfileFor(name string) Profile {
 		p.WInvalid = 0.3
 	case "clock": // C08 / C09 / C12
 		p.MaxAuctions, p.Vesting, p.Blocks = 4, [2]int{0, 8}, [2]int{10, 50}
-		p.WCancel = 0.15
+		p.WCancel, p.WForeign = 0.15, 0.1
 	case "vesting": // C09
 		p.MaxAuctions, p.Vesting, p.Blocks = 3, [2]int{1, 12}, [2]int{8, 30}
 	case "rounds": // C13
@@ -685,6 +685,11 @@ func (g *gen) txCreate(pm *Model) *Tx {
 		m.ExtRate = g.pick("0.05", "0.2", "0.5", "1", "0.000000000000000001", "0.333333333333333333", "0.25", "0.1",
 			"0.333333333333333334", "0.666666666666666667", "0.666666666666666666", "0.142857142857142858", "0.5", "0.25",
 			"1.5", "1.000000000000000001") // a rate above 1 is legal: no fall can reach it, only an empty previous round extends
+		if g.chance(0.3) {
+			// falls between small counts are thirds, halves and quarters: rates exactly at, one ulp above and
+			// one ulp below such a fall
+			m.ExtRate = g.pick("0.333333333333333334", "0.333333333333333333", "0.666666666666666667", "0.666666666666666666", "0.5", "0.25", "0.500000000000000001", "0.250000000000000001")
+		}
 	} else {
 		m.Kind = KCreateFixed
 	}
@@ -1148,6 +1153,19 @@ func (g *gen) txForeign(pm *Model) *Tx {
 		} else {
 			denom = a.PayDenom
 		}
+	}
+	// a third party tops up the selling escrow of an auction that is still waiting: what a later
+	// cancellation returns is the whole escrow balance
+	var waiting []*MAuction
+	for _, a := range pm.Auctions {
+		if a.Status == StStandby {
+			waiting = append(waiting, a)
+		}
+	}
+	if len(waiting) > 0 && g.chance(0.35) {
+		a := waiting[g.r.Intn(len(waiting))]
+		id, kind, denom = a.ID, "selling", a.SellDenom
+		g.intents["foreign:selling_of_waiting"]++
 	}
 	amt := g.amount()
 	if g.chance(0.1) {
